@@ -383,12 +383,27 @@ def mode_history(spec):
         for _ in range(100):
             cv = converters.get_converter()
         hundred = both(cv)
+    # churn: user-supplied converters created, used and DROPPED one after the other (garbage collected before the next one is
+    # made, so object identities are reused): each must behave like its configuration's reference
+    churn = []
+    if spec.get("churn"):
+        import gc
+        cfgs = ["user", "dv_on", "gen", "user", "dv_off", "user"]
+        for i in range(int(spec["churn"])):
+            cfg = cfgs[i % len(cfgs)]
+            try:
+                cv = make(cfg)
+                churn.append([cfg, both(cv), id(cv)])
+            except Exception as e:
+                churn.append([cfg, "create-raise:" + type(e).__name__ + ":" + str(e)[:100], 0])
+            cv = None
+            gc.collect()
     detail = run_battery(converters.get_converter(), T, strict=True) if spec.get("detail") else None
     if spec.get("detail_cfg"):
         detail = run_battery(make(spec["detail_cfg"]), T, strict=True)
     n_st, n_un = battery(T)
     json.dump({"histories": out, "later": later, "hundred": hundred, "n_battery": len(n_st) + len(n_un), "n_strict": len(strict_inputs(T)),
-               "detail": detail, "distinct_identities": len({id(cv) for _, cv in convs}), "n_convs": len(convs)}, sys.stdout, default=repr)
+               "detail": detail, "churn": [c[:2] for c in churn], "churn_reused_identities": len(churn) - len({c[2] for c in churn}), "distinct_identities": len({id(cv) for _, cv in convs}), "n_convs": len(convs)}, sys.stdout, default=repr)
 
 
 def mode_stress(spec):
